@@ -271,7 +271,7 @@ def split_runs(lines):
 def _tlc_trace(trace_file, cfg, metadir, timeout=900, module="MQAbsTrace.tla"):
     r = tlc(module, cfg, metadir, env={"TRACE": trace_file}, workers=1, timeout=timeout,
             java_opts=JAVA_TRACE_OPTS, xmx="3g")
-    m = re.search(r'<<"RESULT", (\d+), (\d+), (.*)>>', r["out"])
+    m = re.search(r'<<\s*"RESULT",\s*(\d+),\s*(\d+),\s*(.*?)>>', r["out"], re.S)
     if not m:
         raise ToolError("trace validation produced no RESULT (%s)\n%s" % (r["error"], r["out"][-2000:]))
     return int(m.group(1)), int(m.group(2)), m.group(3), r
